@@ -15,7 +15,7 @@ Keep == UNCHANGED asend
 \* silent steps (not recorded): they do not consume the trace
 Silent == /\ UNCHANGED l
           /\ \/ (REnqueue /\ Keep) \/ (ACheck /\ Keep) \/ (ATake /\ Keep) \/ (\E v \in Spawned : VTake(v) /\ Keep)
-             \/ (AEnqueue) \/ (RCheckStop /\ Keep) \/ (REofExit /\ Keep) \/ (WTake /\ Keep)
+             \/ (AEnqueue) \/ (RCheckStop /\ Keep) \/ (REofExit /\ Keep) \/ (WTake /\ Keep) \/ (ADrop /\ Keep) \/ (WDrop /\ Keep)
              \/ (ExtStop /\ Keep /\ l <= Len(Rec) /\ Rec[l].stopnow)
 Observed ==
    \/ Ev("R", "send_start") /\ RSendStart(Rec[l].a) /\ Keep
